@@ -576,7 +576,8 @@ def selLoopP : Nat → PExpr → List Token → PPR
         if cur p.2 = .rbrack then selLoopP f (p.1.mk (hd p.2).pos e) p.2.tail else .raise
     | _ => .ok (e, ts)
 
-/-- `pos := p.Token.Pos` (the keyword), `rparen := p.expect(")").Pos` -/
+/-- `pos := p.Token.Pos` (the keyword), `rparen := p.expect(")").Pos`; the keyword production only when the next
+token is `(` (`p.lookaheadToken().Kind == "("`), otherwise the word is an ordinary name -/
 def parsePIndexSpecifier : Nat → List Token → Res (PIdxSpec × List Token)
   | 0, _ => .outOfFuel
   | f + 1, ts =>
@@ -585,7 +586,7 @@ def parsePIndexSpecifier : Nat → List Token → Res (PIdxSpec × List Token)
       if cur ts.tail = .lparen then
         (parsePExpr f ts.tail.tail).bind fun p =>
           if cur p.2 = .rparen then .ok (.kw ⟨k, (hd ts).asString, (hd ts).pos, (hd p.2).pos⟩ p.1, p.2.tail) else .raise
-      else .raise
+      else (parsePExpr f ts).bind fun p => .ok (.plain p.1, p.2)
     | none => (parsePExpr f ts).bind fun p => .ok (.plain p.1, p.2)
 
 def parsePLit : Nat → List Token → PPR
